@@ -35,7 +35,7 @@ TRUSTED_BASE = [
     "reference encoders tools/harness/props/c03_enc.py (each compared with its Lean twin Spec/FilterEnc.lean on every case)",
     "hand models lean/PdfVerif/Model/Filters.lean (decoders, predictors, filter pipeline, stream delimitation), "
     "tied to pdfminer by differential correspondence on valid and corrupted inputs",
-    "tools/translate (Python ast -> Lean) for paeth_predictor and the LITERALS_* filter-name tuples",
+    "tools/translate (Python ast -> Lean) for paeth_predictor, the LITERALS_* filter-name tuples and _DECODE_ERRORS",
     "zlib (Flate) is an abstract inverse pair in Lean; the driver receives zlib's results from the harness",
     "base64.a85decode (CPython) is modelled by hand from its source",
     "shared PDF writer tools/harness/pdfwriter.py for the generated files",
@@ -66,6 +66,8 @@ STATEMENT_STATUS: Dict[str, str] = {
     "filter_names": "proved: full and abbreviated name of each supported filter is in its regenerated LITERALS_* tuple",
     "rldecode_fuel/lzwdecode_fuel/png_fuel/tiff_fuel": "proved: the fuel of every model loop suffices on every input",
     "png_pinned_*_cex": "proved counter-examples: the pinned (pre-fix) predictor parameters fail on the corpus inputs",
+    "stream_decode_handler": "proved: decode()'s handler for decoder-internal errors keeps every successful decode and "
+                             "only substitutes the empty string",
     "stream_delim": "proved: payload delimited exactly for LF / CRLF (and CR not followed by LF), any payload bytes, Length = |payload|",
 }
 
@@ -754,11 +756,11 @@ def pspec(parms: Any) -> str:
     return dspec(parms)
 
 
-def gen_chain(rng, maxlen: int):
+def gen_chain(rng, maxlen: int, minlen: int = 0):
     """Random chain (0..3 stages) with a payload that fits the predictors' row lengths."""
     k = rng.choice([0, 1, 1, 2, 2, 3, 3])
     kinds = [rng.choice(["ahx", "a85", "lzw", "fl", "rl"]) for _ in range(k)]
-    x = gen_payload(rng, maxlen)
+    x = gen_payload(rng, maxlen, minlen)
     stages: List[Stage] = []
     # plaintext of stage i is known only after encoding stages i+1.., so build from the inside out
     cur = x
@@ -929,6 +931,11 @@ def parse_stream_at(buf: bytes, pos: int):
         p.nextobject()
     except PSEOF:
         pass
+    except Exception:  # noqa: BLE001
+        # what the parser does with the bytes AFTER the stream object (a damaged remainder may raise
+        # PSSyntaxError etc.) is not the observable here - only the stream that was pushed is
+        if not captured:
+            raise
     if not captured:
         raise PSEOF("no stream object")
     return captured[0].attrs, captured[0].get_rawdata()
@@ -942,7 +949,12 @@ def run_chains(ctx) -> None:
     for i in range(n):
         if not ctx.time_left():
             break
-        stages, x, data, lay = gen_chain(rng, maxlen)
+        if i % 12 == 5:
+            # long payloads through the whole document path (several parser buffers, LZW width changes)
+            stages, x, data, lay = gen_chain(rng, 9000, 3000)
+            ctx.branch("chain:long")
+        else:
+            stages, x, data, lay = gen_chain(rng, maxlen)
         check_chain(ctx, batch, stages, x, data, lay)
         if len(batch.lines) > 400:
             batch.flush()
@@ -1024,14 +1036,27 @@ def run_chains(ctx) -> None:
             def decompressobj(*a):
                 return real.decompressobj(*a)
         pdftypes.zlib = ZProxy  # type: ignore[assignment]
+        raw_got = None
         try:
             got = impl_call(lambda: PDFStream(attrs, data).get_data())
+            if hasattr(PDFStream, "_decode"):
+                # the loop itself, below decode()'s handler for decoder-internal errors: keeps the error
+                # class of each decoder in the tie (skipped when the code has no such method)
+                def raw_decode():
+                    st = PDFStream(dict(attrs), data)
+                    st._decode()
+                    return st.data
+                raw_got = impl_call(raw_decode)
         finally:
             pdftypes.zlib = real
-        itab = ";".join(hx(i) + "=" + hx(flate_total(i)) for i in rec) or "-"
+        itab = ";".join(hx(i) + "=" + hx(flate_total(i)) for i in dict.fromkeys(rec)) or "-"
         batch.add(f"chain {fspec(fv)} {pspec(pv)} {itab} {hx(data)}", got, {"op": "chain-wild"})
-        ctx.case(("chainwild", fspec(fv), pspec(pv), data), True,
-                 branch="chainwild:" + (got[2:] if got.startswith("E") else "ok"))
+        if raw_got is not None:
+            batch.add(f"chainraw {fspec(fv)} {pspec(pv)} {itab} {hx(data)}", raw_got, {"op": "chainraw-wild"})
+        kind = got[2:] if got.startswith("E") else "ok"
+        if raw_got is not None and raw_got.startswith("E") and not got.startswith("E"):
+            kind = "handled:" + raw_got[2:]
+        ctx.case(("chainwild", fspec(fv), pspec(pv), data), True, branch="chainwild:" + kind)
     batch.flush()
     # wild stream delimitation (tie only): wrong Length, odd EOLs, missing endstream, EOF
     for i in range(ctx.n(600, 8000)):
